@@ -15,26 +15,24 @@ VARIABLES st, m1, m2
 vars == <<st, m1, m2>>
 
 (* ---- writer design check ---- *)
-KeySets == { << >>, <<"a">>, <<"a", "b">> }
-KeySets2 == { << >>, <<"c">>, <<"c", "d">> }
+\* every object of: up to two own properties (set / unset / null), up to two allOf members (inline or embedded, each
+\* with up to two properties and optionally a nested embedded member), zero to two map entries
+States == {"set", "unset", "null"}
+Prop(n, s0) == [k |-> "prop", name |-> n, state |-> s0]
+Leaf(names) == { [fields |-> fs, addl |-> << >>] : fs \in { << >> } \cup { << Prop(names[1], s1) >> : s1 \in States }
+                                                        \cup { << Prop(names[1], s1), Prop(names[2], s2) >> : s1 \in States, s2 \in {"set", "unset"} } }
+Mem(e, o) == [k |-> "member", emb |-> e, obj |-> o]
+NestedObjs == { [fields |-> o.fields \o << Mem(TRUE, n) >>, addl |-> << >>] : o \in Leaf(<<"c", "d">>), n \in Leaf(<<"e", "f">>) }
+MemberObjs == Leaf(<<"c", "d">>) \cup { x \in NestedObjs : Len(x.fields) <= 2 }
 Init == st = "pick" /\ m1 = [emb |-> FALSE, keys |-> << >>] /\ m2 = [emb |-> FALSE, keys |-> << >>]
-Pick(e1, k1, e2, k2) == /\ st = "pick" /\ Explore
-                        /\ m1' = [emb |-> e1, keys |-> k1] /\ m2' = [emb |-> e2, keys |-> k2] /\ st' = "done"
-
-\* repaired writer: an embedded member goes through a buffer and takes part in the comma protocol
-RECURSIVE WriteMembersFixed(_, _, _)
-WriteMembersFixed(ms, toks, comma) ==
-    IF ms = << >> THEN toks
-    ELSE LET m == Head(ms) IN
-         IF m.emb THEN LET body == WriteKeys(m.keys, << >>, FALSE).toks IN
-                       IF body = << >> THEN WriteMembersFixed(Tail(ms), toks, comma)
-                       ELSE WriteMembersFixed(Tail(ms), toks \o (IF comma THEN <<",">> ELSE << >>) \o body, TRUE)
-         ELSE LET r == WriteKeys(m.keys, toks, comma) IN WriteMembersFixed(Tail(ms), r.toks, r.comma)
-
-Out == IF FixedWriter THEN WriteMembersFixed(<<m1, m2>>, << >>, FALSE) ELSE WriteMembers(<<m1, m2>>, << >>, FALSE)
-WriterCorrect == st = "done" =>
-    /\ WellFormedBody(Out)
-    /\ { Out[i] : i \in { k \in DOMAIN Out : Out[k] # "," } } = SeqToSet(m1.keys) \cup SeqToSet(m2.keys)
+\* m1 holds the whole object under test (the variable names are kept from the first version of this module)
+Pick(o) == st = "pick" /\ Explore /\ m1' = o /\ m2' = m2 /\ st' = "done"
+Objects2 == { [fields |-> own.fields \o ms, addl |-> ad] :
+                own \in Leaf(<<"a", "b">>),
+                ms \in { << >> } \cup { << Mem(e, o) >> : e \in BOOLEAN, o \in MemberObjs }
+                        \cup { << Mem(e1, o1), Mem(e2, o2) >> : e1 \in BOOLEAN, e2 \in BOOLEAN, o1 \in Leaf(<<"c", "d">>), o2 \in Leaf(<<"g", "h">>) },
+                ad \in { << >>, <<"k1">>, <<"k1", "k2">> } }
+WriterCorrect == st = "done" => WriterOK(m1, FixedWriter)
 
 (* ---- schema universe ---- *)
 Sc(k, n) == [k |-> k, nullable |-> n]
@@ -74,7 +72,7 @@ Universe == Aliases \cup NullRefs \cup Scalars \cup { Arr(s) : s \in Scalars } \
 
 EmitSchema(s) == st = "pick" /\ Emit /\ PrintT(ToJson([schema |-> s])) /\ UNCHANGED vars
 
-Next == \/ \E e1 \in BOOLEAN, k1 \in KeySets, e2 \in BOOLEAN, k2 \in KeySets2 : Pick(e1, k1, e2, k2)
+Next == \/ \E o \in Objects2 : Pick(o)
         \/ \E s \in Universe : EmitSchema(s)
 Spec == Init /\ [][Next]_vars
 =============================================================================
